@@ -70,6 +70,32 @@ def vectors(rng, n, complex_=False, k=3):
     return vs
 
 
+def built_operators(ctx, mesh, fixed_sites, fix_psi):
+    """MeshOperators with its matrices built. The constructor also LU-factorises the (by design singular) scalar
+    Laplacian, which SuperLU survives only thanks to rounding; on a mesh whose row sums vanish exactly it raises
+    'Factor is exactly singular' (seen on the structured zoo mesh). The identities do not need the factorisation, so
+    in that case the matrices are built with the factorisation step stubbed out."""
+    import scipy.sparse.linalg as spl
+    from tdgl.finite_volume.operators import MeshOperators
+    from tdgl.solver.options import SparseSolver
+
+    mo = MeshOperators(mesh, SparseSolver.SUPERLU, fixed_sites=fixed_sites, fix_psi=fix_psi)
+    try:
+        mo.build_operators()
+    except RuntimeError as e:
+        if "singular" not in str(e):
+            raise
+        ctx.count("mu_laplacian_factorisation_exactly_singular")
+        orig = spl.factorized
+        spl.factorized = lambda A: None
+        try:
+            mo = MeshOperators(mesh, SparseSolver.SUPERLU, fixed_sites=fixed_sites, fix_psi=fix_psi)
+            mo.build_operators()
+        finally:
+            spl.factorized = orig
+    return mo
+
+
 def check_mesh(ctx, name, mesh, fixed, with_model=True):
     O = ops_impl()
     rng = ctx.rng
@@ -169,8 +195,7 @@ def check_mesh(ctx, name, mesh, fixed, with_model=True):
     from tdgl.finite_volume.operators import MeshOperators
     from tdgl.solver.options import SparseSolver
 
-    mo = MeshOperators(mesh, SparseSolver.SUPERLU, fixed_sites=None, fix_psi=False)
-    mo.build_operators()
+    mo = built_operators(ctx, mesh, None, False)
     for k_ in range(3):
         Ak = rng.normal(size=(E, 2)) * (0.0 if k_ == 0 else 1.5)
         mo.set_link_exponents(Ak)
@@ -184,8 +209,7 @@ def check_mesh(ctx, name, mesh, fixed, with_model=True):
     # the scalar operators in use (with and without terminal sites): Laplacian = divergence o gradient,
     # area-weighted symmetric, annihilates the constants
     for fx_ in ((None, fixed) if fixed is not None else (None,)):
-        mo2 = MeshOperators(mesh, SparseSolver.SUPERLU, fixed_sites=fx_, fix_psi=True)
-        mo2.build_operators()
+        mo2 = built_operators(ctx, mesh, fx_, True)
         mo2.set_link_exponents(rng.normal(size=(E, 2)))
         Lu = sp.csr_matrix(mo2.mu_laplacian)
         DG = sp.csr_matrix(mo2.divergence) @ sp.csr_matrix(mo2.mu_gradient)
